@@ -33,6 +33,14 @@ theorem canonical_uri_denotes_path (p : Bytes) (h : p ≠ []) : pctDecode (canon
   | nil => exact absurd rfl h
   | cons c t => simpa using pctDecode_canonURILoop (c :: t)
 
+/-- **canonical_query_determines_parameters.** Two requests with the same canonical query string
+carry the same multiset of (decoded) query parameters, the signature parameter itself aside —
+added, removed, duplicated or altered parameters change the canonical request. -/
+theorem canonical_query_determines_parameters (fx : Fix) (q1 q2 : List (Bytes × Bytes))
+    (e : canonicalQuery fx q1 = canonicalQuery fx q2) :
+    (q1.filter (fun p => p.1 != amzSignatureKey)).Perm (q2.filter (fun p => p.1 != amzSignatureKey)) :=
+  canonicalQuery_determines fx q1 q2 e
+
 /-- **accepted_components_signed.** Let a request be accepted as some access key. If its signature
 is a tag the holder of a key `key0` computed for (timestamp `ts0`, scope `scope0`, canonical
 request of components `k0`), then — hashes collision free, MAC unforgeable — the accepted request
